@@ -236,3 +236,155 @@ theorem fold_adjoint (ps : List (Pair R)) (s : BPSt D) (hs : s.status = .ok ()) 
 
 end generic
 end Qeep
+
+/-! ## The depth-first order of `backwardOrder` -/
+
+namespace Qeep
+
+/-- successors point to older tensors -/
+def DagS (S : Nat → List Nat) : Prop := ∀ n c, c ∈ S n → c < n
+
+/-- closed under successors -/
+def ClosedS (S : Nat → List Nat) (done : List Nat) : Prop := ∀ a ∈ done, ∀ c ∈ S a, c ∈ done
+
+/-- newest first; no edge from a later (older in discovery) element to an earlier one -/
+inductive TopoS (S : Nat → List Nat) : List Nat → Prop
+  | nil : TopoS S []
+  | cons {m rest} : (∀ b ∈ rest, m ∉ S b) → m ∉ rest → TopoS S rest → TopoS S (m :: rest)
+
+structure DInv (S : Nat → List Nat) (done : List Nat) : Prop where
+  closed : ClosedS S done
+  topo : TopoS S done
+
+/-- what a visit (or a fold of visits) may do to the list: keep old members, add only ids ≤ bound -/
+structure Ext (bound : Nat) (d d' : List Nat) : Prop where
+  mono : ∀ a ∈ d, a ∈ d'
+  small : ∀ a ∈ d', a ∈ d ∨ a ≤ bound
+
+theorem Ext.refl (b : Nat) (d : List Nat) : Ext b d d := ⟨fun _ h => h, fun _ h => Or.inl h⟩
+
+theorem Ext.trans {b : Nat} {d1 d2 d3 : List Nat} (h12 : Ext b d1 d2) (h23 : Ext b d2 d3) : Ext b d1 d3 :=
+  ⟨fun a h => h23.mono a (h12.mono a h), fun a h => by
+    rcases h23.small a h with h | h
+    · exact h12.small a h
+    · exact Or.inr h⟩
+
+theorem Ext.weaken {b b' : Nat} {d d' : List Nat} (h : Ext b d d') (hb : b ≤ b') : Ext b' d d' :=
+  ⟨h.mono, fun a ha => by rcases h.small a ha with h | h; exact Or.inl h; exact Or.inr (Nat.le_trans h hb)⟩
+
+theorem visit_spec (S : Nat → List Nat) (hdag : DagS S) :
+    ∀ (f n : Nat) (done : List Nat), n < f → DInv S done →
+      DInv S (visit S f n done) ∧ Ext n done (visit S f n done) ∧ n ∈ visit S f n done
+  | 0, n, done, hf, _ => by omega
+  | f + 1, n, done, hf, hinv => by
+    unfold visit
+    by_cases hmem : n ∈ done
+    · rw [if_pos hmem]
+      exact ⟨hinv, Ext.refl _ _, hmem⟩
+    · rw [if_neg hmem]
+      have fold : ∀ (cs : List Nat) (d : List Nat), (∀ c ∈ cs, c < n) → DInv S d →
+          DInv S (cs.foldl (fun d c => visit S f c d) d) ∧
+          Ext (n - 1) d (cs.foldl (fun d c => visit S f c d) d) ∧
+          (∀ c ∈ cs, c ∈ cs.foldl (fun d c => visit S f c d) d) := by
+        intro cs
+        induction cs with
+        | nil => intro d _ hd; exact ⟨hd, Ext.refl _ _, by simp⟩
+        | cons c cs ih =>
+          intro d hlt hd
+          have hc : c < n := hlt c (by simp)
+          obtain ⟨h1, h2, h3⟩ := visit_spec S hdag f c d (by omega) hd
+          obtain ⟨g1, g2, g3⟩ := ih (visit S f c d) (fun x hx => hlt x (by simp [hx])) h1
+          refine ⟨by simpa [List.foldl] using g1, ?_, ?_⟩
+          · simpa [List.foldl] using (h2.weaken (by omega)).trans g2
+          · intro x hx
+            simp only [List.foldl]
+            rcases List.mem_cons.mp hx with rfl | hx
+            · exact g2.mono _ h3
+            · exact g3 x hx
+      obtain ⟨k1, k2, k3⟩ := fold (S n) done (fun c hc => hdag n c hc) hinv
+      have hn_notin : n ∉ (S n).foldl (fun d c => visit S f c d) done := by
+        intro hin
+        rcases k2.small n hin with h | h
+        · exact hmem h
+        · have : 0 < n := by
+            rcases Nat.eq_zero_or_pos n with h0 | h0
+            · subst h0
+              have : S 0 = [] := by
+                cases hs : S 0 with
+                | nil => rfl
+                | cons c cs => exact absurd (hdag 0 c (by simp [hs])) (by omega)
+              rw [this, List.foldl_nil] at hin; exact absurd hin hmem
+            · exact h0
+          omega
+      refine ⟨⟨?_, ?_⟩, ?_, by simp⟩
+      · intro a ha c hc
+        rcases List.mem_cons.mp ha with rfl | ha
+        · exact List.mem_cons_of_mem _ (k3 c hc)
+        · exact List.mem_cons_of_mem _ (k1.closed a ha c hc)
+      · exact TopoS.cons (fun b hb hnb => hn_notin (k1.closed b hb n hnb)) hn_notin k1.topo
+      · exact ⟨fun a ha => List.mem_cons_of_mem _ (k2.mono a ha), fun a ha => by
+          rcases List.mem_cons.mp ha with rfl | ha
+          · exact Or.inr (Nat.le_refl _)
+          · rcases k2.small a ha with h | h
+            · exact Or.inl h
+            · exact Or.inr (by omega)⟩
+
+/-- a topological order has no duplicates -/
+theorem TopoS.nodup {S : Nat → List Nat} : ∀ {l : List Nat}, TopoS S l → l.Nodup
+  | _, .nil => List.nodup_nil
+  | _, .cons _ hnot ht => List.nodup_cons.mpr ⟨hnot, ht.nodup⟩
+
+section stable
+variable {R : Type} (tracked : Nat → Bool)
+
+theorem stable_append : ∀ (A B : List (Pair R)), Stable tracked A → Stable tracked B →
+    (∀ p ∈ A, ∀ q ∈ B, tracked q.2.1 = true → q.2.1 ≠ p.1) → Stable tracked (A ++ B)
+  | [], B, _, hB, _ => hB
+  | p :: A, B, hA, hB, hAB => by
+    refine ⟨?_, stable_append A B hA.2 hB (fun a ha q hq => hAB a (List.mem_cons_of_mem _ ha) q hq)⟩
+    intro q hq ht
+    rcases List.mem_cons.mp hq with rfl | hq
+    · exact hA.1 _ (by simp) ht
+    · rcases List.mem_append.mp hq with hq | hq
+      · exact hA.1 q (List.mem_cons_of_mem _ hq) ht
+      · exact hAB p (by simp) q hq ht
+
+/-- **a DFS order makes the edge sequence stable**: when `S u` lists the tracked targets of `u`'s edges, successors
+    point to older nodes and `order` is topological, no edge targets the source of an earlier-or-same edge -/
+theorem stable_of_topo (S : Nat → List Nat) (edges : Nat → List (Nat × R)) (hdag : DagS S)
+    (hS : ∀ u e, e ∈ edges u → tracked e.1 = true → e.1 ∈ S u) :
+    ∀ (order : List Nat), TopoS S order → Stable tracked (allPairs edges order)
+  | [], _ => trivial
+  | m :: rest, .cons hback _ ht => by
+    have ih := stable_of_topo S edges hdag hS rest ht
+    unfold allPairs
+    simp only [List.flatMap_cons]
+    apply stable_append
+    · -- pairs of m itself: all sources are m, targets are older than m
+      have : ∀ (es : List (Nat × R)), (∀ e ∈ es, e ∈ edges m) → Stable tracked (es.map (fun e => (m, e))) := by
+        intro es
+        induction es with
+        | nil => intro _; trivial
+        | cons e es ihe =>
+          intro hsub
+          refine ⟨?_, ihe (fun x hx => hsub x (List.mem_cons_of_mem _ hx))⟩
+          intro q hq htq
+          have hq' : q ∈ (e :: es).map (fun e => (m, e)) := by simpa using hq
+          obtain ⟨e', he', rfl⟩ := List.mem_map.mp hq'
+          have := hdag m e'.1 (hS m e' (hsub e' he') htq)
+          simp only
+          omega
+      exact this (edges m) (fun e he => he)
+    · exact ih
+    · intro p hp q hq htq
+      obtain ⟨e, he, rfl⟩ := List.mem_map.mp hp
+      -- q comes from a later node b of the order
+      unfold allPairs at hq
+      obtain ⟨b, hb, hqb⟩ := List.mem_flatMap.mp hq
+      obtain ⟨e', he', rfl⟩ := List.mem_map.mp hqb
+      simp only
+      intro heq
+      exact hback b hb (heq ▸ hS b e' he' htq)
+
+end stable
+end Qeep
